@@ -31,9 +31,9 @@ META = dict(
          "depth<=3 (thorough 4) over 8 valid expressions + 5 failing ones (truncated, unbalanced, invalid identifier, "
          "division by zero, empty): every valid expression must evaluate, in every state, to its value in the empty "
          "history; (c) validator: every token string of length<=3 over 17 tokens (numbers, statistics, operators, "
-         "parentheses, 3 rejects and the empty token, i.e. a leading / trailing / doubled space) joined by single spaces: accepted iff every token is allowed, else ValueError; (d) "
+         "parentheses, 3 rejects and the empty token, i.e. a leading / trailing / doubled space) joined by single spaces (also with the judged spec in the first / middle / last of 2-3 tests that share limit names): accepted iff every token is allowed, else ValueError; (d) "
          "creator: synthetic time-constant NetCDF-3 climatologies (2-d and 3-d, 4 cell patterns incl. NaN / negative / "
-         "zero-sum) x every index-aligned bounding box x 4 date ranges x 3 expression sets: spans must equal the "
+         "zero-sum) x every index-aligned bounding box x 4 date ranges x 3 expression sets, + request histories on one creator (one variable config edited in place / fresh objects): spans must equal the "
          "expressions on min/max/mean/std of the in-box cells. non-trivial = expression with an operator / history with "
          "a failing step / token string with a rejected token / box smaller than the grid",
     bounds={"quick": {"expr_depth": 2, "history_depth": 3, "token_len": 3}, "thorough": {"expr_depth": 3, "history_depth": 4, "token_len": 3}},
@@ -162,7 +162,14 @@ def check_tokens(case):
     spec = " ".join(case["tokens"])
     cfg = dict(variable="temp", bbox=[0, 0, 1, 1], start_time="2001-01-01", end_time="2001-02-01",
                tests=dict(gross_range_test=dict(suspect_min="1", suspect_max="2", fail_min="0", fail_max="3")))
-    cfg["tests"]["gross_range_test"][case["slot"]] = spec
+    pos = case.get("test_pos")
+    if pos is None:
+        cfg["tests"]["gross_range_test"][case["slot"]] = spec
+    else:
+        # several tests sharing the limit names; the judged spec sits in test number `pos`
+        names = ["gross_range_test", "climatology_test", "other_span_test"][: case["ntests"]]
+        cfg["tests"] = {nm: dict(suspect_min="1", suspect_max="2", fail_min="0", fail_max="3") for nm in names}
+        cfg["tests"][names[pos]][case["slot"]] = spec
     got = alpha.call(QcVariableConfig, cfg)
     ok = all(t in ALLOWED for t in case["tokens"])
     vs = []
@@ -242,7 +249,7 @@ def check_creator(case):
     cells = [v for v in cells if v == v]
     exprs = EXPRSETS[case["exprs"]]
     vc = dict(variable="temp", bbox=bbox, start_time=DATES[case["dates"]][0], end_time=DATES[case["dates"]][1], tests=dict(gross_range_test=dict(exprs)))
-    got = alpha.call(lambda: c.create_config(QcVariableConfig(vc)))
+    got = case["_got"] if "_got" in case else alpha.call(lambda: c.create_config(QcVariableConfig(vc)))
     zero_sum = abs(sum(cells)) == 0
     sig0 = f"{PROP}|creator|dim={case['dim']}|cells-sum-to-zero={zero_sum}"
     if not cells:
@@ -277,8 +284,54 @@ def check_creator(case):
     return vs, not full, tuple(round(v, 6) for k in ("suspect_span", "fail_span") for v in gv[k]), 0, 1
 
 
+def _cleanup_creators():
+    global _TMP
+    _CREATORS.clear()
+    if _TMP and os.path.isdir(_TMP):
+        shutil.rmtree(_TMP, True)
+    _TMP = None
+
+
+def check_creator_seq(case):
+    """history on ONE QcConfigCreator: several requests in a row, through one QcVariableConfig edited in place or
+    through fresh objects; every answer must be that of its own request"""
+    import gc
+
+    from ioos_qc.config_creator.config_creator import QcVariableConfig
+
+    _CREATORS.pop((case["pattern"], case["dim"]), None)  # a fresh creator per history
+    c = alpha.call(creator, case["pattern"], case["dim"])
+    if isinstance(c, alpha.Raised):
+        return [], False, None, 1, 1
+    vs = []
+    obs = []
+    vc = None
+    for step, box in enumerate(case["boxes"]):
+        one = dict(kind="creator", pattern=case["pattern"], dim=case["dim"], box=box, dates=1, exprs=0)
+        i0, i1, j0, j1 = box
+        bbox = [LONS[i0], LATS[j0], LONS[i1], LATS[j1]]
+        if case["mode"] == "edit-in-place" and vc is not None:
+            vc["bbox"] = bbox
+        else:
+            vc = None
+            gc.collect()
+            vc = QcVariableConfig(dict(variable="temp", bbox=bbox, start_time=DATES[1][0], end_time=DATES[1][1], tests=dict(gross_range_test=dict(EXPRSETS[0]))))
+        got = alpha.call(c.create_config, vc)
+        v1, _, o, _, _ = check_creator(dict(one, _got=got))
+        obs.append(o)
+        for v in v1:
+            v = dict(v)
+            v["signature"] = v["signature"].replace("C20|creator|", f"C20|creator-sequence|{case['mode']}|request#{min(step, 1) + 1}|")
+            vs.append(v)
+        if vs:
+            break
+    return vs, True, tuple(obs), 0, len(case["boxes"])
+
+
 def check_case(case):
     k = case["kind"]
+    if k == "creator_seq":
+        return check_creator_seq(case)
     if k == "expr":
         return check_expr(case)
     if k == "history":
@@ -308,6 +361,9 @@ def tasks(tier):
         ts.append(("history", first, 3 if tier == "quick" else 4))
     for t in range(len(TOKENS)):
         ts.append(("tokens", t))
+    ts.append(("tokens_multi",))
+    for p in ("ramp", "zerosum"):
+        ts.append(("creator_seq", p))
     for p in PATTERNS:
         for dim in ("2d", "3d"):
             ts.append(("creator", p, dim))
@@ -354,6 +410,30 @@ def run_task(task, acc):
                     slot = ("suspect_min", "suspect_max", "fail_min", "fail_max")[(d + len(rest)) % 4]
                     yield dict(kind="tokens", tokens=[first, *rest], slot=slot)
         run_cases(acc, gen(), check_case)
+    elif kind == "tokens_multi":
+        def gen():
+            for ntests in (2, 3):
+                for pos in range(ntests):
+                    for toks in ([t] for t in TOKENS if t != ""):
+                        for slot in ("suspect_min", "fail_max"):
+                            yield dict(kind="tokens", tokens=toks, slot=slot, ntests=ntests, test_pos=pos)
+                    for toks in (["mean", "+", "foo"], ["3", "*", "^"], ["(", "max", ")"]):
+                        yield dict(kind="tokens", tokens=toks, slot="suspect_max", ntests=ntests, test_pos=pos)
+        run_cases(acc, gen(), check_case)
+    elif kind == "creator_seq":
+        pattern = task[1]
+
+        def gen():
+            boxes = [[0, 0, 0, 0], [0, 2, 0, 2], [1, 2, 1, 1], [2, 2, 0, 1]]
+            for a in boxes:
+                for b in boxes:
+                    if a != b:
+                        for mode in ("edit-in-place", "fresh-objects"):
+                            yield dict(kind="creator_seq", pattern=pattern, dim="2d", boxes=[a, b, a], mode=mode)
+        try:
+            run_cases(acc, gen(), check_case)
+        finally:
+            _cleanup_creators()
     elif kind == "creator":
         _, pattern, dim = task
 
@@ -368,8 +448,4 @@ def run_task(task, acc):
         try:
             run_cases(acc, gen(), check_case)
         finally:
-            global _TMP
-            _CREATORS.clear()
-            if _TMP and os.path.isdir(_TMP):
-                shutil.rmtree(_TMP, True)
-                _TMP = None
+            _cleanup_creators()
